@@ -357,6 +357,68 @@ pub fn ascii_blocks() -> Vec<String> {
     out
 }
 
+/// "Same buffer" histories: every ordered pair (A, B) of distinct strings of equal byte length
+/// from `strings` is presented to `f` one after the other **in the same String allocation**
+/// (clear + push_str keeps the pointer), on one thread. This is what a cache keyed by the
+/// address and length of its argument confuses.
+pub fn same_buffer_pairs<F>(strings: &[String], f: F) -> Stats
+where
+    F: Fn(&str, &mut Stats) + Sync,
+{
+    let mut by_len: BTreeMap<usize, Vec<&String>> = BTreeMap::new();
+    for s in strings {
+        by_len.entry(s.len()).or_default().push(s);
+    }
+    let groups: Vec<Vec<&String>> = by_len.into_values().filter(|g| g.len() >= 2).collect();
+    let shards: Vec<Stats> = groups
+        .par_iter()
+        .map(|g| {
+            let mut st = Stats::default();
+            let mut buf = String::with_capacity(64);
+            for a in g.iter() {
+                for b in g.iter() {
+                    if a == b {
+                        continue;
+                    }
+                    st.states += 1;
+                    st.transitions += 2;
+                    buf.clear();
+                    buf.push_str(a);
+                    f(&buf, &mut st);
+                    buf.clear();
+                    buf.push_str(b);
+                    f(&buf, &mut st);
+                }
+            }
+            st
+        })
+        .collect();
+    let mut total = Stats::default();
+    for s in shards {
+        total.merge(s);
+    }
+    total
+}
+
+/// all strings of length 1..=n over `sigma`
+pub fn all_strings(sigma: &[char], n: usize) -> Vec<String> {
+    let mut out: Vec<String> = Vec::new();
+    let mut frontier: Vec<String> = vec![String::new()];
+    for _ in 0..n {
+        let mut next = Vec::new();
+        for f in &frontier {
+            for c in sigma {
+                let mut t = f.clone();
+                t.push(*c);
+                next.push(t);
+            }
+        }
+        out.extend(next.iter().cloned());
+        frontier = next;
+    }
+    out
+}
+
 /// Run `f` over a family of strings on the thread pool (one state per string).
 pub fn run_family<F>(strings: &[String], f: F) -> Stats
 where
